@@ -79,6 +79,10 @@ Definition op_sure_bytes : list N := bytes_of_string ":&|^=<>*/%".
 (* ... and bytes that may continue it but not end it *)
 Definition op_unsure_bytes : list N := bytes_of_string "+-~!$".
 
+(* lex_operator: the sequences that cannot appear within an operator: three
+   pipes, slash slash, slash star *)
+Definition op_forbidden_seqs : list (list N) := [ [124; 124; 124]; [47; 47]; [47; 42] ].
+
 (* the escape arms of lex_quoted_string: dquote quote backslash slash b f n r t *)
 Definition escape_table : list (N * N) :=
   [ (34, 34); (39, 39); (92, 92); (47, 47); (98, 8); (102, 12); (110, 10); (114, 13); (116, 9) ].
@@ -250,12 +254,7 @@ Definition lex_multi_line_comment (start : N) (c : cur) : res (token * cur) :=
 
 (* ---- operators ---- *)
 Definition op_forbidden_here (r : list N) : bool :=
-  match r with
-  | 124 :: 124 :: 124 :: _ => true      (* ||| *)
-  | 47 :: 47 :: _ => true               (* // *)
-  | 47 :: 42 :: _ => true               (* slash star *)
-  | _ => false
-  end.
+  existsb (fun s => match strip_prefix s r with Some _ => true | None => false end) op_forbidden_seqs.
 
 (* the loop of lex_operator.  [acc] = bytes consumed so far (reversed), the
    triple (sp, sr, sacc) is the state at sure_end_pos.  Returns the cursor at
